@@ -146,9 +146,10 @@ CHECKS = {
               "binary vs set relation for a single child) the reader returns exactly the reference model; FeatureIDE — the reader "
               "is invariant under graphics / description elements, mandatory=\"false\" / abstract=\"false\", attribute order, "
               "reads n-ary conj / disj as the left fold, and reads the canonical document of a model as that model (also with no "
-              "constraints section). PARTIAL for AFM and Glencoe: their readers are Gallina functions of the parse tree / JSON "
-              "value tied to the code by suites R-afm-3p / R-glencoe-3p with reference emitters, and the denotation there is "
-              "decided by the oracle, not by a theorem. The shipped corpus is read by model and implementation and compared "
+              "constraints section). AFM — redundant parentheses anywhere in a constraint and absent sections do not change what is read; "
+              "Glencoe — undefined top-level keys are ignored wherever they stand, n-ary And/Or/Xor terms are left folds. PARTIAL "
+              "for AFM and Glencoe beyond that: the denotation of their reference-emitter documents is decided by the oracle on "
+              "suites R-afm-3p / R-glencoe-3p, not by a theorem. The shipped corpus is read by model and implementation and compared "
               "with Betty's own statistics."),
         note=("Coq kernel; extraction/driver; harness reference emitters (the reading of the four formats); external XML / JSON / "
               "ANTLR parsers; no axioms"),
